@@ -39,6 +39,11 @@ where
     let mut header = [0u8; SNA_HEADER_SIZE];
     asset.read_exact(&mut header)?;
 
+    // Nothing of the previous execution state (halt, pending prefix, locked paging)
+    // should survive snapshot loading
+    emulator.cpu = Default::default();
+    emulator.controller.unlock_paging();
+
     // i-reg
     emulator.cpu.regs.set_i(header[0]);
     // alt-regs
